@@ -552,3 +552,60 @@ func cmdAxioms(args []string) {
 func thoroughExtras(repo, prop string, seed int, extra map[string]any) int {
 	return runBounded(repo, prop, seed, extra)
 }
+
+// cmdStress: developer command — solve every obligation under several seeds and report the unstable ones.
+func cmdStress(args []string) {
+	fs := flag.NewFlagSet("stress", flag.ExitOnError)
+	fn := fs.String("func", "", "function keys (comma separated; default all contracted)")
+	n := fs.Int("n", 5, "seeds")
+	limit := fs.Float64("limit", 3, "report obligations whose portfolio time exceeds this many seconds for some seed")
+	fs.Parse(args)
+	repo := envOr("GOVC_REPO", "/repo")
+	smtDir, _ := os.MkdirTemp("", "govc-smt-")
+	defer os.RemoveAll(smtDir)
+	prog, err := LoadProgram(repo)
+	if err != nil {
+		fmt.Println(err)
+		os.Exit(2)
+	}
+	w := NewWorld()
+	var obls []*Obligation
+	for _, c := range prog.Contracts {
+		if c.Fn == nil {
+			continue
+		}
+		if *fn != "" && !contains(strings.Split(*fn, ","), c.Key) {
+			continue
+		}
+		r := VerifyFunc(w, prog, c.Fn)
+		for _, o := range r.Obls {
+			if !o.Cover && o.Solver == "" {
+				obls = append(obls, o)
+			}
+		}
+	}
+	worst := map[*Obligation]float64{}
+	fails := map[*Obligation]int{}
+	for seed := 1; seed <= *n; seed++ {
+		for _, o := range obls {
+			o.Status, o.Solver, o.Seconds = "", "", 0
+		}
+		SolveAll(w, obls, smtDir, 10, seed*101, 8)
+		for _, o := range obls {
+			if o.Status != "unsat" {
+				fails[o]++
+			}
+			if o.Seconds > worst[o] {
+				worst[o] = o.Seconds
+			}
+		}
+	}
+	bad := 0
+	for _, o := range obls {
+		if fails[o] > 0 || worst[o] > *limit {
+			bad++
+			fmt.Printf("UNSTABLE %s@p%d: failed %d/%d seeds, worst %.1fs  (%s)\n", o.Name, o.PathIdx, fails[o], *n, worst[o], o.Pos)
+		}
+	}
+	fmt.Printf("stress: %d obligations x %d seeds, %d unstable\n", len(obls), *n, bad)
+}
